@@ -535,6 +535,18 @@ func (st *Std) Client() Client {
 	}
 	var cond0 func(c ast.Expr, s S) (t, f []S)
 	cond := func(c ast.Expr, s S) (t, f []S) {
+		// the condition of a canonical counting loop over a slice is offered to the
+		// client as the range decision it is equivalent to
+		if st.OnBranch != nil {
+			cur := st.Cur()
+			if fs, ok := cur.Prog.Parent(cur.File, c).(*ast.ForStmt); ok && fs.Cond == c {
+				if r := CanonLoop(info, fs); r != nil {
+					if t, f, ok := st.OnBranch(Branch{Kind: BrRange, Range: r}, s); ok {
+						return t, f
+					}
+				}
+			}
+		}
 		// calls evaluated as part of the condition are seen by OnCall (and inlined) first
 		states := st.execCalls(c, []S{s}, &cl)
 		for _, x := range states {
